@@ -88,6 +88,13 @@ Theorem C36_bucket_kept_same_rule : forall l d now next,
   l_gen l <> 0%N -> d_rule (l_dec l) = d_rule d -> l_gen (fst (update_limiter l d now next)) = l_gen l.
 Proof. exact update_keeps_bucket. Qed.
 
+(* 5. Eviction: the addresses shrink() removes because the pool holds more than MaxAddrs addresses (the oldest
+      ones) lose their node identity, so the precedence chain of their next request runs without node hint. *)
+Theorem C36_evicted_addr_forgets_node : forall s maxaddrs now a,
+  In a (firstn (List.length (h_queue s) - N.to_nat maxaddrs) (h_queue s)) ->
+  aget a (h_nodes (fst (step s (OShrink maxaddrs) now))) = None.
+Proof. exact shrink_forgets_node. Qed.
+
 (* non-vacuity *)
 Example C36_example_precedence :
   let R := mkRules (Some ([(1%N, mkRM (Some 1%N) [])], 0%Z))
